@@ -11,8 +11,13 @@ Rand == { [fam |-> "C07", kind |-> "random", start |-> 0, g |-> 1, k |-> 2, read
 Conc == { [fam |-> "C07", kind |-> "concurrent", start |-> s, g |-> g, k |-> ConcOps \div g, readers |-> r,
             class |-> "concurrent_g" \o ToString(g) \o (IF s > 60000 THEN "_wraps" ELSE "")]
           : s \in {65530, 0, 32767}, g \in Gs, r \in {0, 2} }
+\* a sequencer that is far along: the 64-bit roll-over count starts at and around 2^16 and 2^32 (8 bytes, big endian;
+\* set through a verification-only constructor, counts are reported relative to it)
+Roc0s == << <<0, 0, 0, 0, 0, 0, 255, 255>>, <<0, 0, 0, 0, 0, 1, 0, 0>>, <<0, 0, 0, 0, 255, 255, 255, 255>>, <<0, 0, 0, 1, 0, 0, 0, 0>>, <<255, 255, 255, 255, 255, 255, 255, 254>> >>
+FarAlong == { [fam |-> "C07", kind |-> k, start |-> s, g |-> (IF k = "fixed" THEN 1 ELSE 4), k |-> (IF k = "fixed" THEN 4 ELSE 50), readers |-> (IF k = "fixed" THEN 0 ELSE 2),
+               roc0 |-> Roc0s[i], class |-> "far_along_" \o k] : k \in {"fixed", "concurrent"}, s \in {65533, 100}, i \in 1..Len(Roc0s) }
 Many == { [fam |-> "C07", kind |-> "random_many", start |-> 0, g |-> 1, k |-> 500000, readers |-> 0, class |-> "random_many", n |-> i] : i \in 1..2 }
-Raw == SetToSeq(Fixed) \o SetToSeq(Rand) \o SetToSeq(Conc) \o SetToSeq(Many)
+Raw == SetToSeq(Fixed) \o SetToSeq(Rand) \o SetToSeq(Conc) \o SetToSeq(FarAlong) \o SetToSeq(Many)
 CaseSeq == [i \in 1..Len(Raw) |-> Raw[i] @@ [case |-> i]]
 ASSUME WriteCases(CaseSeq) /\ PrintT(<<"CASES", Len(CaseSeq)>>)
 =============================================================================
